@@ -428,6 +428,16 @@ def h_map(I, st, fv, args, kwargs, ctx):
     return [(st, FuncV("builtin", name="$mapobj", self=None, margs=(f, xs)))]
 
 
+def h_object_getattribute(I, st, fv, args, kwargs, ctx):
+    """object.__getattribute__(self, key): the raw slot read"""
+    o, k = (args[0], args[1]) if len(args) == 2 else (fv.data.get("self"), args[0])
+    if not isinstance(k, Conc):
+        raise OutOfReach("object.__getattribute__ with symbolic name")
+    c2 = dict(ctx)
+    c2["$raw_getattr"] = True
+    return I.getattr(st, o, k.py, c2)
+
+
 def h_noop(I, st, fv, args, kwargs, ctx):
     I.stats["dropped"].add(fv.data.get("name", "?"))
     return [(st, Conc(None))]
@@ -532,6 +542,7 @@ def install(I):
     L["new:str"] = h_opaque_str
     L["format"] = h_opaque_str
     L["inspect.isgeneratorfunction"] = h_isgeneratorfunction
+    L["object.__getattribute__"] = h_object_getattribute
     L["$binop"] = h_binop
     from . import lib_seq, lib_misc
     lib_seq.install(I)
